@@ -704,7 +704,7 @@ func checkParallelSlices(c *fw.Ctx, rule string, fn *ssa.Function) {
 		return ok && strings.HasSuffix(fw.Short(sl.Elem().String()), elem)
 	}
 	n := 0
-	for _, dc := range fw.DeepCalls(fn, func(string) bool { return true }, nil) {
+	for _, dc := range fw.AllDeepCalls(fn, nil) {
 		callee := dc.Call.Common().StaticCallee()
 		if callee == nil || callee.Pkg == nil || !strings.HasPrefix(callee.Pkg.Pkg.Path(), fw.ModPath) {
 			continue
